@@ -1,6 +1,7 @@
 #!/bin/sh
 # usage: dev/try_seed.sh <patch.diff> <check ids...>   - apply a seeded change to /repo, run checks, undo
 P=$1; shift
+if [ -n "$(git -C /repo status --porcelain)" ]; then echo "uncommitted changes in /repo - commit them first"; exit 2; fi
 rm -rf /tmp/verif_ev_backup && cp -r /verif/evidence /tmp/verif_ev_backup
 git -C /repo apply "$P" || exit 2
 for c in "$@"; do
